@@ -248,7 +248,7 @@ func ints(l []int) string { return strings.Trim(fmt.Sprint(l), "[]") }
 
 func TestCheck(t *testing.T) {
 	r := vp.New("C04", "fault_enumeration",
-		"modes: {libp2p-HTTP discovery, plain HTTP} x {1, 2 addresses} x {explicit sync with queried head, with explicit head, announce-triggered} x {unsegmented, segment size 1, 2} x {nothing synced before, part of the chain synced before} on a chain of L advertisements. For each mode a fault-free reference run fixes the request positions; then every fault kind (HTTP 400/403/404/500/503, connection closed, declared length longer than body, corrupt body, substituted body, empty body, stalled response, caller cancellation during a request, hook failure per block in segmented mode, caller cancellation from inside each block-hook call i.e. between requests and between segments, an address for which no client can be created) at every position, singly (quick) and in pairs within one attempt and across attempt and retry (thorough), each followed by a fault-free retry on the same subscriber. Non-trivial: every faulted run. Distinct = distinct (mode, fault script).",
+		"modes: {libp2p-HTTP discovery, plain HTTP} x {1, 2 addresses} x {explicit sync with queried head, with explicit head, announce-triggered} x {unsegmented, segment size 1, 2} x {nothing synced before, part of the chain synced before} on a chain of L advertisements. For each mode a fault-free reference run fixes the request positions; then every fault kind (HTTP 400/403/404/500/503, connection closed, declared length longer than body, corrupt body, substituted body, empty body, stalled response, caller cancellation during a request, hook failure per block in segmented mode, caller cancellation from inside each block-hook call i.e. between requests and between segments, an address for which no client can be created) at every position, singly, in pairs over a reduced kind set (quick: 404 / 403 / 500 / connection closed / unusable address) and over the larger kind set (thorough), within one attempt and across attempt and retry, each followed by a fault-free retry on the same subscriber. Non-trivial: every faulted run. Distinct = distinct (mode, fault script).",
 		"stalled responses and time-outs run in virtual time inside a synctest bubble; the horizon for 'no event will come' is 30 virtual minutes",
 		"a fault that the client masks (address fail-over, legacy path fallback) must leave all observations equal to the fault-free reference",
 		"the stream-reset retry branch needs a libp2p stream transport and is not driven",
@@ -352,7 +352,31 @@ func runMode(t *testing.T, r *vp.Recorder, m mode, thorough bool) {
 	for _, f := range singles {
 		oneScript(t, r, m, ref, []fault{f}, nil)
 	}
+	// quick tier: pairs over a reduced kind set (an error status the client may
+	// answer with a fallback or a failover, a broken connection, an unusable
+	// address), within one attempt and across attempt and retry
+	reduced := func(k string) bool {
+		switch k {
+		case "status404", "status403", "status500", "close", "unusable-address":
+			return true
+		}
+		return false
+	}
 	if !thorough {
+		for i := 0; i < len(singles); i++ {
+			if !reduced(singles[i].Kind) {
+				continue
+			}
+			for j := 0; j < len(singles); j++ {
+				if !reduced(singles[j].Kind) {
+					continue
+				}
+				if j > i && singles[i].At != singles[j].At {
+					oneScript(t, r, m, ref, []fault{singles[i], singles[j]}, nil)
+				}
+				oneScript(t, r, m, ref, []fault{singles[i]}, []fault{singles[j]})
+			}
+		}
 		return
 	}
 	for i := 0; i < len(singles); i++ {
